@@ -307,6 +307,32 @@ func c07Child(a *ChildArgs) {
 			}
 		}
 	case "batches":
+		if a.Shard == 0 {
+			// long batches: one parser serves the whole list, so any state a statement leaves behind (a depth level, a flag,
+			// a buffer) accumulates over hundreds of members
+			tmpls := []string{"SELECT -%d", "SELECT +%d, -a FROM t", "SELECT (((%d)))", "SELECT CASE WHEN a = %d THEN 1 ELSE 2 END FROM t", "SELECT a FROM t WHERE b IN (SELECT c FROM u WHERE d = %d)",
+				"SELECT CAST(%d AS INT), x::text FROM t", "SELECT f(g(h(%d))) FROM t", "SELECT ARRAY[%d, 2][1] FROM t", "INSERT INTO t (a) VALUES (-%d), (NOT TRUE)", "UPDATE t SET a = -%d WHERE NOT (b = 1)",
+				"WITH c AS (SELECT %d) SELECT * FROM c", "SELECT a FROM t WHERE NOT NOT (a = %d)", "SELECT a FROM t WHERE a BETWEEN -%d AND +9", "DELETE FROM t WHERE EXISTS (SELECT 1 FROM u WHERE u.a = -%d)",
+				"SELECT a FROM t UNION SELECT -%d", "SELECT INTERVAL '1 day' * -%d"}
+			for _, tm := range tmpls {
+				var list []string
+				for k := 0; k < 400; k++ {
+					list = append(list, fmt.Sprintf(tm, k))
+				}
+				if outcomeTree(gosqlx.Parse(list[0])).Accept {
+					c07Batch(a, list)
+				}
+			}
+			g := gen.New(rand.New(rand.NewSource(base+7)), avoid)
+			var list []string
+			for len(list) < 500 {
+				s := gen.Plain(g.Statement(2).Toks)
+				if outcomeTree(gosqlx.Parse(s)).Accept {
+					list = append(list, s)
+				}
+			}
+			c07Batch(a, list)
+		}
 		for i := 0; i < a.N; i++ {
 			seed := base + int64(i)*15485863 + 99
 			r := rand.New(rand.NewSource(seed))
